@@ -34,6 +34,19 @@ from vizier.utils import attrs_utils
 _resource_component_validator = [attrs_utils.assert_re_fullmatch(r'[^\/]+')]
 
 
+def _parse_int_component(text: str) -> int:
+  """Parses the integer component of a resource name.
+
+  Only the spelling that `name` produces is accepted: 'trials/01', 'trials/+1'
+  or 'trials/1 ' are not other names of trial 1 (datastores that look resources
+  up by their name string do not know them either).
+  """
+  value = int(text)
+  if str(value) != text:
+    raise ValueError(f'{text!r} is not a valid integer resource component.')
+  return value
+
+
 @attr.define(init=True, frozen=True)
 class OwnerResource:
   """Resource for Owners."""
@@ -124,7 +137,7 @@ class TrialResource:
       return TrialResource(
           trial_match.group('owner_id'),
           trial_match.group('study_id'),
-          int(trial_match.group('trial_id')),
+          _parse_int_component(trial_match.group('trial_id')),
       )
     else:
       raise ValueError(
@@ -183,7 +196,7 @@ class EarlyStoppingOperationResource:
       return EarlyStoppingOperationResource(
           operation_match.group('owner_id'),
           operation_match.group('study_id'),
-          int(operation_match.group('trial_id')),
+          _parse_int_component(operation_match.group('trial_id')),
       )
     else:
       raise ValueError(f'Incorrect resource name sent: {resource_name}')
@@ -232,7 +245,7 @@ class SuggestionOperationResource:
           operation_match.group('owner_id'),
           operation_match.group('study_id'),
           operation_match.group('client_id'),
-          int(operation_match.group('operation_number')),
+          _parse_int_component(operation_match.group('operation_number')),
       )
     else:
       raise ValueError(f'Incorrect resource name sent: {resource_name}')
